@@ -1,8 +1,12 @@
 """
 E4 - cooperative thread scheduler for real Python threads (sys.settrace + per-thread baton).
 
-The library contains no locks, atomics or blocking calls, so every traced source line of the
-package is a scheduling point. A *plan* is a list of segments (thread index, budget): the thread
+Every traced source line of the package is a scheduling point. The tree as pinned contains no
+locks or blocking calls; a tree that does gets them through vf.engine.coop (cooperative stand-ins
+for threading.Lock/RLock/Condition/Event/Semaphore): a thread that would block hands the baton
+on, "no enabled thread while some are blocked" is a deadlock, a thread that runs SPIN_LIMIT
+points in one segment is made to hand over (a polling loop) and, after MAX_SPINS hand-overs, the
+execution is a livelock. Both are results of the execution, not harness errors. A *plan* is a list of segments (thread index, budget): the thread
 runs `budget` scheduling points (None = until it finishes), then the baton passes to the next
 segment's thread. Plans are enumerated by iterative preemption bounding (bound 0, 1, 2). Every
 schedule runs to completion.
@@ -15,8 +19,11 @@ import sys
 import threading
 
 from .. import core
+from . import coop
 
 TIMEOUT = 60
+SPIN_LIMIT = 300000
+MAX_SPINS = 6
 
 
 class Execution(object):
@@ -34,6 +41,47 @@ class Execution(object):
         self.used = 0
         self.trace_log = []          # (thread, points run) per executed segment
         self.error = None
+        self.tids = {}               # thread ident -> index
+        self.blocked = {}            # index -> (object waited for, timed, description)
+        self.timedout = set()
+        self.spins = [0] * n
+        self.deadlock = None         # {thread index: what it waits for} when no thread is enabled
+        self.livelock = None
+        self.aborting = False
+
+    # ---- blocking (called by vf.engine.coop on the thread that holds the baton)
+    def block(self, tid, obj, timed, what):
+        """The calling thread cannot proceed. Returns True when it was woken by 'time-out'."""
+        self.blocked[tid] = (obj, timed, what)
+        self._switch(tid, False)
+        if self.aborting:
+            raise SystemExit
+        if tid in self.timedout:
+            self.timedout.discard(tid)
+            return True
+        return False
+
+    def wake(self, obj):
+        for t in [t for t, b in self.blocked.items() if b[0] is obj]:
+            del self.blocked[t]
+
+    def unblock(self, tid):
+        self.blocked.pop(tid, None)
+
+    def _abort(self):
+        self.aborting = True
+        for t in range(len(self.bodies)):
+            if not self.done[t]:
+                self.sem[t].release()
+
+    def stuck(self):
+        """Description of a deadlock / livelock of this execution, or None."""
+        if self.deadlock:
+            return "deadlock: %s; no thread can run" % "; ".join(
+                "thread %d waits forever in %s" % (t, w) for t, w in sorted(self.deadlock.items()))
+        if self.livelock:
+            return self.livelock
+        return None
 
     # ---- baton
     def _next_segment(self, frm):
@@ -42,19 +90,37 @@ class Execution(object):
         j = frm + 1
         while True:
             while j < len(self.plan):
-                if not self.done[self.plan[j][0]]:
+                t = self.plan[j][0]
+                if not self.done[t] and t not in self.blocked:
                     return j
                 j += 1
-            rest = [t for t in range(len(self.bodies)) if not self.done[t]]
+            rest = [t for t in range(len(self.bodies)) if not self.done[t] and t not in self.blocked]
             if not rest:
+                bl = [t for t in sorted(self.blocked) if not self.done[t]]
+                if not bl:
+                    return None
+                timed = [t for t in bl if self.blocked[t][1]]
+                if timed:                      # nothing else can run: the timed wait times out
+                    del self.blocked[timed[0]]
+                    self.timedout.add(timed[0])
+                    self.plan.append((timed[0], None))
+                    continue
+                self.deadlock = dict((t, self.blocked[t][2]) for t in bl)
+                self._abort()
                 return None
             for t in rest:
                 self.plan.append((t, None))
 
     def _switch(self, tid, finished):
+        if self.aborting:
+            if not finished:
+                raise SystemExit
+            return
         self.trace_log.append((tid, self.used))
         j = self._next_segment(self.seg)
         if j is None:
+            if self.aborting and not finished:
+                raise SystemExit
             return
         self.seg, self.used = j, 0
         nxt = self.plan[j][0]
@@ -65,11 +131,25 @@ class Execution(object):
             if not self.sem[tid].acquire(timeout=TIMEOUT):
                 self.error = "scheduler timeout (thread %d never got the baton back)" % tid
                 raise SystemExit
+            if self.aborting:
+                raise SystemExit
 
     def _point(self, tid):
+        if self.aborting:
+            return
         self.points[tid] += 1
         budget = self.plan[self.seg][1]
         if budget is not None and self.used >= budget:
+            self._switch(tid, False)
+        elif budget is None and self.used >= SPIN_LIMIT:
+            # a thread that never finishes its segment polls for something: hand over fairly
+            self.spins[tid] += 1
+            if self.spins[tid] > MAX_SPINS:
+                self.livelock = "livelock: thread %d ran %d x %d scheduling points without finishing" % (
+                    tid, MAX_SPINS, SPIN_LIMIT)
+                self._abort()
+                raise SystemExit
+            self.plan.append((tid, None))
             self._switch(tid, False)
         self.used += 1
 
@@ -100,8 +180,13 @@ class Execution(object):
         return glob
 
     def _thread(self, tid):
+        self.tids[threading.get_ident()] = tid
         if not self.sem[tid].acquire(timeout=TIMEOUT):
             self.error = "scheduler timeout (thread %d never started)" % tid
+            return
+        if self.aborting:
+            self.result[tid] = ("exc", "scheduler abort")
+            self.done[tid] = True
             return
         sys.settrace(self._tracer(tid))
         try:
@@ -122,11 +207,15 @@ class Execution(object):
             t.daemon = True
             t.start()
         first = self.plan[0][0]
-        self.sem[first].release()
-        for t in ths:
-            t.join(TIMEOUT)
-            if t.is_alive():
-                self.error = self.error or "scheduler timeout (join)"
+        coop.ACTIVE = self
+        try:
+            self.sem[first].release()
+            for t in ths:
+                t.join(TIMEOUT)
+                if t.is_alive():
+                    self.error = self.error or "scheduler timeout (join)"
+        finally:
+            coop.ACTIVE = None
         if self.error:
             raise core.HarnessError(self.error)
         return self.result
